@@ -280,6 +280,23 @@ def rsa_exponent_length(ctx, report):
                 report.add(rule, '%s@exponent-length[%s]' % (f.construct, 'one-octet' if length <= 255 else 'three-octet'),
                            'an exponent of %d octets is written as %s, RFC 3110 2 says %s' % (
                                length, [c[:1] + c[2:] if c[0] == 'mpint' else c for c in comp.calls][:4], [c[:1] + c[2:] if c[0] == 'mpint' else c for c in want]))
+        # modulus width: the field is the rest of the RDATA, as many octets as the modulus needs (no leading zero octet).  The
+        # key object reports key_size the way asn1crypto computes it: ceil(log2(n)) rounded up to a multiple of 8
+        import math
+        for modulus in ((1 << 2047) + 1, (1 << 1017) - 1, 1 << 1016, (1 << 1016) + 1, 255, 256, (1 << 512) - 1, 1 << 511):
+            report.count(rule)
+            bits = int(math.ceil(math.log(modulus, 2)))
+            key = Obj(params=Obj(public_exponent=65537, modulus=modulus), key_size=bits + (-bits % 8))
+            comp = Composer()
+            Evaluator(dict(zip(params, [comp, key])), None, None).function(f.node)
+            need = (modulus.bit_length() + 7) // 8
+            got = [c for c in comp.calls if c[0] == 'mpint' and c[1] == modulus]
+            if not got or got[-1][2] != need:
+                report.add(rule, '%s@modulus-width' % f.construct,
+                           'a %d bit modulus (%s) is written into %s octets, it needs %d: the fixed length integer writer refuses it, so a parsed key cannot be '
+                           'composed, serialised or given a key tag' % (modulus.bit_length(), 'a power of two' if modulus & (modulus - 1) == 0 else 'odd size',
+                                                                       got[-1][2] if got else 'no', need))
+                break
     except (Unsupported, Raised) as e:
         report.add(rule, f.construct + '@tabulation', 'the RSA key composer left the subset the tabulation understands: %s' % e)
 
